@@ -12,6 +12,7 @@ import (
 	"verif/internal/load"
 	"verif/internal/report"
 	"verif/internal/small"
+	"verif/internal/visitors"
 )
 
 // Rules added in the fourth session (this file's init runs after props_zz3.go's).
@@ -138,8 +139,12 @@ func (c *Ctx) presenceCompare(res *report.RuleResult, dir, path string, tb *kind
 				continue
 			}
 			for _, fl := range k.Slots() {
-				res.Count("slots", 1)
 				key := k.Name + "." + fl.Name
+				if why, skip := presenceNotDecided[key]; skip {
+					res.OK(label+"/"+key, "", k.Name, "not decided here: "+why)
+					continue
+				}
+				res.Count("slots", 1)
 				got, exp := opt[key], want[key]
 				switch {
 				case got == exp:
@@ -161,6 +166,11 @@ func (c *Ctx) presenceCompare(res *report.RuleResult, dir, path string, tb *kind
 		os.WriteFile(path+".new", b, 0o644)
 		res.OK("dump:"+path, path+".new", "", "written")
 	}
+}
+
+// slots whose content does not come from the right-hand side of a production
+var presenceNotDecided = map[string]string{
+	"Root.EndTkn": "the start production stores the parser's current token (the end-of-input token) there; whether the analysis can see that it is non-nil depends on how the action spells the access, not on the grammar",
 }
 
 func orDash(s string) string {
@@ -254,6 +264,20 @@ func init() {
 	hsF := []report.Floor{{Rule: "heredoc-spec", What: "conditions", Min: 2}, {Rule: "heredoc-spec", What: "scenarios", Min: 100000}}
 	for _, id := range []string{"C03", "C06", "C08", "C10"} {
 		extendProp(id, hs, hsF, func(c *Ctx) { defer c.cleanup(); c.scanRun("heredoc-spec") })
+	}
+	const wsp = "write-spec: the printer's output primitive (found by its role) is evaluated from source (package ceval) on every sequence of up to three chunks from a family built from the constants it compares chunks with (the constant, a chunk that merely contains it, prefixes) and the classes of PHP's label characters, from a fresh printer and from each mode set through WithState; the bytes handed to the output must equal the specification: `<?php ` before the first non-empty chunk in HTML mode unless the chunk begins with `<?`, a blank between two chunks that meet in label characters, nothing for an empty chunk, the chunk itself last and unchanged (seed C15-10: HasPrefix replaced by Contains)."
+	wsF := []report.Floor{{Rule: "write-spec", What: "scenarios", Min: 5000}}
+	for _, id := range []string{"C15", "C02"} {
+		extendProp(id, wsp, wsF, func(c *Ctx) {
+			c.Fixture("mini", "write-spec", false, func(p *load.Program, tb *kinds.Table) *report.RuleResult {
+				r := visitors.WriteSpecIn(p, tb, "pkg/visitor/printer", "printer")
+				r.Merge(visitors.WriteSpecIn(p, tb, "pkg/visitor/badprinter", "printer"), "bad:")
+				return r
+			})
+			if p, tb, ok := c.RepoProgram(false); ok {
+				c.Add(visitors.WriteSpec(p, tb))
+			}
+		})
 	}
 	properties["PO"] = &Property{Level: "other", Run: func(c *Ctx) { defer c.cleanup(); c.presenceOracle() }}
 }
